@@ -117,7 +117,7 @@ structure World where
   simplicityCache : List (CKey × Bool)                -- lru_cache of _structure_simplicity_level
   srCounter : Nat                                     -- StructureReference.counter
   flags : Flags
-  deriving Repr
+  deriving DecidableEq, Repr
 
 def World.initial : World := ⟨[], [], [], [], 0, Flags.initial⟩
 
@@ -163,25 +163,41 @@ def ownRequired (fs : List FieldSpec) : List String :=
 /-- derived classes do not copy serialization mappers -/
 def unmapped (fs : List FieldSpec) : List FieldSpec := fs.map fun f => { f with serKey := f.name }
 
-/-- fields, `_required` and signature-required of the new class given its (already defined) parent.
+/-- what a definition reads of its parent class: how it derives from it, the parent's
+    definition-time core and the parent's LIVE `_required` list -/
+abbrev PInfo := Parent × Core × List String
+
+/-- fields and `_required` of the new class given its (already defined) parent.
     `inherit` reads the parent's frozen signature; `omit`/`pick` read the parent's LIVE `_required`. -/
-def inheritInfo (parent : Option (Parent × Entry)) (own : List FieldSpec) :
-    List FieldSpec × List String :=
+def inheritInfo (parent : Option PInfo) (own : List FieldSpec) : List FieldSpec × List String :=
   match parent with
   | none => (own, ownRequired own)
-  | some (.inherit _, ep) =>
-    (ep.core.fields.filter (fun f => !(fnames own).contains f.name) ++ own,
-     ep.core.sigRequired.filter (fun n => !(fnames own).contains n) ++ ownRequired own)
-  | some (.omit _ ns, ep) =>
-    let fs := unmapped (ep.core.fields.filter fun f => !ns.contains f.name) ++ own
-    (fs, (ep.required.filter fun n => !ns.contains n).filter (fun n => !hasDefaultIn fs n) ++ ownRequired own)
-  | some (.pick _ ns, ep) =>
-    let fs := unmapped (ep.core.fields.filter fun f => ns.contains f.name) ++ own
-    (fs, (ep.required.filter fun n => ns.contains n).filter (fun n => !hasDefaultIn fs n) ++ ownRequired own)
-  | some (.partialOf _, ep) =>
-    (unmapped ep.core.fields ++ own, ownRequired own)
+  | some (.inherit _, pc, _) =>
+    (pc.fields.filter (fun f => !(fnames own).contains f.name) ++ own,
+     pc.sigRequired.filter (fun n => !(fnames own).contains n) ++ ownRequired own)
+  | some (.omit _ ns, pc, preq) =>
+    (unmapped (pc.fields.filter fun f => !ns.contains f.name) ++ own,
+     (preq.filter fun n => !ns.contains n).filter
+        (fun n => !hasDefaultIn (unmapped (pc.fields.filter fun f => !ns.contains f.name) ++ own) n) ++ ownRequired own)
+  | some (.pick _ ns, pc, preq) =>
+    (unmapped (pc.fields.filter fun f => ns.contains f.name) ++ own,
+     (preq.filter fun n => ns.contains n).filter
+        (fun n => !hasDefaultIn (unmapped (pc.fields.filter fun f => ns.contains f.name) ++ own) n) ++ ownRequired own)
+  | some (.partialOf _, pc, _) =>
+    (unmapped pc.fields ++ own, ownRequired own)
 
-/-- trusted-deserialization eligibility of a field given the class table -/
+/-- `getattr(cls, "_additionalProperties")` of the new class: its own setting, else what it inherits -/
+def addPropsAttrOf (own : Option Bool) (parent : Option PInfo) : Option Bool :=
+  match own with
+  | some b => some b
+  | none =>
+    match parent with
+    | some (.inherit _, pc, _) => pc.addPropsAttr
+    | _ => none
+
+/-- trusted-deserialization eligibility of a field given the class table (a reference is eligible
+    iff the referenced class is; the referenced class's fields never change, so evaluating this at
+    definition instead of at the first trusted deserialization gives the same verdict) -/
 def fieldSimple (classes : List (ClassId × Entry)) (f : FieldSpec) : Bool :=
   match f.kind with
   | .ref c => match alookup c classes with
@@ -189,37 +205,36 @@ def fieldSimple (classes : List (ClassId × Entry)) (f : FieldSpec) : Bool :=
     | none => false
   | _ => f.trustedOk
 
-def lookupParent (classes : List (ClassId × Entry)) : Option Parent → Option (Option (Parent × Entry))
+def resolveSimple (classes : List (ClassId × Entry)) (f : FieldSpec) : FieldSpec :=
+  { f with trustedOk := fieldSimple classes f }
+
+def lookupParent (classes : List (ClassId × Entry)) : Option Parent → Option (Option PInfo)
   | none => some none
   | some p => match alookup p.cid classes with
-    | some e => some (some (p, e))
+    | some e => some (some (p, e.core, e.required))
     | none => none
 
 /-- `get_base_info` re-reads the base's additional-properties setting with the CURRENT global default
     and drops the base's `**kwargs` parameter accordingly; when that reading disagrees with the
     base's frozen signature the class statement raises (KeyError 'kwargs', or ValueError
     "duplicate parameter name: 'kwargs'" when the new class takes `**kwargs` itself) -/
-def baseSigClash (flags : Flags) (src : ClassSrc) : Option (Parent × Entry) → Bool
-  | some (.inherit _, ep) =>
-    let reading := ep.core.src.addProps.getD flags.addProps
-    if ep.core.kwargs then !reading && src.addProps.getD flags.addProps
-    else reading
+def baseSigClash (flags : Flags) (src : ClassSrc) : Option PInfo → Bool
+  | some (.inherit _, pc, _) =>
+    if pc.kwargs then !(pc.src.addProps.getD flags.addProps) && src.addProps.getD flags.addProps
+    else pc.src.addProps.getD flags.addProps
   | _ => false
 
 def totalInlines (fs : List FieldSpec) : Nat := (fs.map (·.inlines)).sum
 
 /-- the entry `StructMeta.__new__` creates -/
-def elabClass (cfg : Config) (w : World) (src : ClassSrc) (pe : Option (Parent × Entry)) : Entry :=
-  let own := (resolveFields cfg w.wrappers src.fields).2
+def elabClass (cfg : Config) (w : World) (src : ClassSrc) (pe : Option PInfo) : Entry :=
+  let own := ((resolveFields cfg w.wrappers src.fields).2).map (resolveSimple w.classes)
   let info := inheritInfo pe own
   { core := { src := src, defFlags := w.flags, fields := info.1,
               sigRequired := (fnames info.1).filter fun n => info.2.contains n,
               kwargs := src.addProps.getD w.flags.addProps,
-              addPropsAttr := (match src.addProps, pe with
-                | some b, _ => some b
-                | none, some (.inherit _, ep) => ep.core.addPropsAttr
-                | none, _ => none),
-              simple := info.1.all (fieldSimple w.classes) },
+              addPropsAttr := addPropsAttrOf src.addProps pe,
+              simple := info.1.all (·.trustedOk) },
     required := info.2, serializer := none, createdFast := false }
 
 /-! ### observations -/
@@ -406,7 +421,7 @@ def constructW (cfg : Config) (w : World) (c : ClassId) (e : Entry) (kw : List (
 /-- `structure_to_schema(cls)`: fills the mapper cache and (per the table) writes `_required` in place -/
 def schemaW (cfg : Config) (w : World) (c : ClassId) (e : Entry) : World × Obs :=
   let w1 := fillMapper cfg w c e
-  let req := schemaRequiredOf (serMapper cfg w1 c e) (extrasOf w1 e) e.core.fields e.required
+  let req := schemaRequiredOf (serMapper cfg w1 c e) (extrasOf w e) e.core.fields e.required
   if cfg.schemaWritesRequired && req != e.required then
     (setEntry w1 c { e with required := req }, { Obs.ok with keys := req, wrote := true })
   else (w1, { Obs.ok with keys := req })
@@ -464,5 +479,46 @@ def closedOp (T : ClassId → Bool) : WorldOp → Bool
   | _ => true
 
 def closed (T : ClassId → Bool) (h : List WorldOp) : Bool := h.all (closedOp T)
+
+/-! ### the region of histories in which the known findings do not fire -/
+
+def wrapsOfFields (fs : List FieldSpec) : List (String × TypeId) :=
+  fs.filterMap fun f => match f.kind with | .wrap n t => some (n, t) | _ => none
+
+/-- every (bare class name, class identity) pair wrapped implicitly anywhere in the history -/
+def wrapsOf : List WorldOp → List (String × TypeId)
+  | [] => []
+  | .define _ src :: h => wrapsOfFields src.fields ++ wrapsOf h
+  | _ :: h => wrapsOf h
+
+/-- no two DIFFERENT user classes with the same bare name are wrapped implicitly -/
+def NoClashW (W : List (String × TypeId)) : Prop := ∀ p ∈ W, ∀ q ∈ W, p.1 = q.1 → p.2 = q.2
+
+instance (W : List (String × TypeId)) : Decidable (NoClashW W) := by unfold NoClashW; infer_instance
+
+def hasRef (e : Entry) : Bool := e.core.fields.any fun f => match f.kind with | .ref _ => true | _ => false
+
+/-- a step is quiet when `structure_to_schema` does not change `cls._required` (and, because the
+    model does not follow ClassReference fields into the referenced classes' `_required`, is not
+    applied to a class with such fields while the in-place write exists) -/
+def quietStep (cfg : Config) (w : World) : WorldOp → Bool
+  | .toSchema c => !cfg.schemaWritesRequired ||
+    (match alookup c w.classes with
+     | none => true
+     | some e => (schemaRequiredOf (serMapper cfg (fillMapper cfg w c e) c e) (extrasOf w e) e.core.fields e.required
+                    == e.required) && !hasRef e)
+  | _ => true
+
+def quietRun (cfg : Config) : World → List WorldOp → Bool
+  | _, [] => true
+  | w, op :: h => quietStep cfg w op && quietRun cfg (stepW cfg w op).1 h
+
+/-- the exclusion of exactly the known-finding region, as dictated by the configuration read from
+    the generated table: name clashes matter only while the wrapper registry is name-keyed, schema
+    writes only while `structure_to_schema` writes in place -/
+def Excluded (cfg : Config) (h : List WorldOp) : Prop :=
+  (cfg.wrapperByName = true → NoClashW (wrapsOf h)) ∧ quietRun cfg World.initial h = true
+
+instance (cfg : Config) (h : List WorldOp) : Decidable (Excluded cfg h) := by unfold Excluded; infer_instance
 
 end Typedpy.World
